@@ -87,12 +87,12 @@ def convert(rec, gindex, keep_lex=False):
             evs.append(c)
         elif e[0] == 'tval':
             evs.append(['tval', e[1], e[2], e[3], e[4]])
-        elif e[0] == 'call':
-            evs.append(['call', e[1], e[2], e[3], e[4], e[5]])
-        elif e[0] == 'ccall':
-            evs.append(['ccall', e[1], e[2], e[5], e[6], e[7], e[3], e[4]])
-        elif e[0] == 'dcall':
-            evs.append(['dcall', e[1], e[2], e[3], e[4]])
+        elif e[0] == 'call':          # harness: [call, rule, id, lvalue-args, ids, lines, cols]
+            evs.append(['call', e[1], e[2], e[4], e[5], e[6], e[3]])
+        elif e[0] == 'ccall':         # [ccall, rule, id, same, const, lvalue-args, ids, lines, cols]
+            evs.append(['ccall', e[1], e[2], e[6], e[7], e[8], e[3], e[4], e[5]])
+        elif e[0] == 'dcall':         # [dcall, id, lvalue-args, ids, lines, cols]
+            evs.append(['dcall', e[1], e[3], e[4], e[5], e[2]])
         else:
             evs.append(list(e))
     flat = []
